@@ -60,7 +60,8 @@ CONSTANTS
     Names,                \* layer names (strings); layerCache and blobCache are keyed by the same name
     NH,                   \* holders (callers of Resolve) 1..NH
     MaxR,                 \* bound on Resolve calls
-    MaxFault,             \* bound on injected faults (BreakConn, registry failure, metadata failure)
+    MaxFault,             \* bound on injected failures (registry failure in Resolve / Refresh, metadata failure)
+    MaxBreak,             \* bound on BreakConn
     TrackFiles,           \* model the open cache files of a layer/blob (one more bit per object)
     Extras,               \* FALSE (generation configs only): leave out the steps that change nothing in the model (Read,
                           \* DoneAgain, Refresh of a healthy connection) and the repeated Close; the driver then reads
@@ -85,11 +86,11 @@ VARIABLES
               \*     the connection has not been seen working or been refreshed since
     fsd, hd,  \* Seq BOOLEAN: directories ever made under <root>/fscache, <root>/httpcache; TRUE = exists
     hs,       \* [1..NH -> [pc, n, l, b, fd, hdp]]
-    nres, nfault,
+    nres, nfault, nbreak,
     last      \* observation: the step just made and what it returned
 
-core == <<lock, lc, bc, layers, blobs, fsd, hd, hs, nres, nfault>>
-vars == <<lock, lc, bc, layers, blobs, fsd, hd, hs, nres, nfault, last>>
+core == <<lock, lc, bc, layers, blobs, fsd, hd, hs, nres, nfault, nbreak>>
+vars == <<lock, lc, bc, layers, blobs, fsd, hd, hs, nres, nfault, nbreak, last>>
 
 H == 1..NH
 NoName == "-"
@@ -157,7 +158,7 @@ Init ==
     /\ lc = [n \in Names |-> 0] /\ bc = [n \in Names |-> 0]
     /\ layers = <<>> /\ blobs = <<>> /\ fsd = <<>> /\ hd = <<>>
     /\ hs = [h \in H |-> Idle]
-    /\ nres = 0 /\ nfault = 0
+    /\ nres = 0 /\ nfault = 0 /\ nbreak = 0
     /\ last = [act |-> "Init", h |-> 0, n |-> NoName, arg |-> TRUE, ok |-> TRUE, ret |-> "", cb |-> 0]
 
 \* cb: the blob whose connectivity the step checked / refreshed (0: none)
@@ -437,11 +438,11 @@ Tick ==
 
 \* every fetcher of this name that exists now stops passing its check (e.g. an expired URL)
 BreakConn(n) ==
-    /\ nfault < MaxFault
+    /\ nbreak < MaxBreak
     /\ \E b \in BIds : blobs[b].name = n /\ ~blobs[b].closed /\ blobs[b].conn
     /\ blobs' = [b \in BIds |-> IF blobs[b].name = n THEN [blobs[b] EXCEPT !.conn = FALSE] ELSE blobs[b]]
-    /\ nfault' = nfault + 1
-    /\ UNCHANGED <<lock, lc, bc, layers, fsd, hd, hs, nres>>
+    /\ nbreak' = nbreak + 1
+    /\ UNCHANGED <<lock, lc, bc, layers, fsd, hd, hs, nres, nfault>>
     /\ Obs("BreakConn", 0, n, TRUE, TRUE, "")
 
 \* the timer of the entry cached under this name runs: evictLocked(name)
@@ -456,7 +457,7 @@ TTLExpireBlob(n) ==
     /\ UNCHANGED <<lock, hs, nres, nfault>>
     /\ Obs("TTLExpireBlob", 0, n, TRUE, TRUE, "")
 
-Next ==
+NextOther ==
     \/ \E h \in H, n \in Names : ResolveLockA(h, n)
     \/ \E h \in H : LayerCacheGet(h)
     \/ \E h \in H : LayerCheck(h)
@@ -480,9 +481,12 @@ Next ==
     \/ \E h \in H, a \in BOOLEAN : Refresh(h, a)
     \/ \E h \in H : Check(h)
     \/ Tick
-    \/ \E n \in Names : BreakConn(n)
     \/ \E n \in Names : TTLExpireLayer(n)
     \/ \E n \in Names : TTLExpireBlob(n)
+
+Next ==
+    \/ \E n \in Names : BreakConn(n)
+    \/ NextOther /\ nbreak' = nbreak
 
 Spec == Init /\ [][Next]_vars
 
